@@ -240,6 +240,17 @@ create_proc_dir(const char *loom, int pid)
 		rproc.move_to_final = 1;
 		mkdir_proc(rproc.procdir, tmpdir, loom, pid);
 		mkdir_proc(rproc.procdir_final, tracedir, loom, pid);
+
+		/* If both names lead to the same directory the streams are
+		 * already in their final place: moving them would truncate
+		 * the only copy and then remove it. */
+		struct stat st, st_final;
+		if (stat(rproc.procdir, &st) != 0)
+			die("stat %s failed:", rproc.procdir);
+		if (stat(rproc.procdir_final, &st_final) != 0)
+			die("stat %s failed:", rproc.procdir_final);
+		if (st.st_dev == st_final.st_dev && st.st_ino == st_final.st_ino)
+			rproc.move_to_final = 0;
 	} else {
 		rproc.move_to_final = 0;
 		mkdir_proc(rproc.procdir, tracedir, loom, pid);
